@@ -384,8 +384,9 @@ class CommitGraph:
         for entry in sorted_entries:
             oid_lookup_data += hex_to_sha(entry.commit_id)
 
-        # Build commit data chunk
+        # Build commit data chunk (and the extra edge list for octopus merges)
         commit_data = b""
+        extra_edge_data = b""
         # Create OID to index mapping for parent lookups
         oid_to_index = {entry.commit_id: i for i, entry in enumerate(sorted_entries)}
 
@@ -404,10 +405,17 @@ class CommitGraph:
                 parent1_pos = oid_to_index.get(entry.parents[0], GRAPH_PARENT_MISSING)
                 parent2_pos = oid_to_index.get(entry.parents[1], GRAPH_PARENT_MISSING)
             else:
-                # More than 2 parents - would need extra edge list chunk
-                # For now, just store first two parents
+                # More than 2 parents: the second slot points into the extra
+                # edge list, which holds the positions of all parents after
+                # the first; the last one carries GRAPH_LAST_EDGE.
                 parent1_pos = oid_to_index.get(entry.parents[0], GRAPH_PARENT_MISSING)
-                parent2_pos = oid_to_index.get(entry.parents[1], GRAPH_PARENT_MISSING)
+                parent2_pos = GRAPH_EXTRA_EDGES_NEEDED | (len(extra_edge_data) // 4)
+                rest = entry.parents[1:]
+                for n, parent in enumerate(rest):
+                    pos = oid_to_index.get(parent, GRAPH_PARENT_MISSING)
+                    if n == len(rest) - 1:
+                        pos |= GRAPH_LAST_EDGE
+                    extra_edge_data += struct.pack(">L", pos)
 
             commit_data += struct.pack(">LL", parent1_pos, parent2_pos)
 
@@ -432,33 +440,35 @@ class CommitGraph:
             fanout_data += struct.pack(">L", count)
 
         # Calculate chunk offsets
+        chunks = [
+            (CHUNK_OID_FANOUT, fanout_data),
+            (CHUNK_OID_LOOKUP, oid_lookup_data),
+            (CHUNK_COMMIT_DATA, commit_data),
+        ]
+        if extra_edge_data:
+            chunks.append((CHUNK_EXTRA_EDGE_LIST, extra_edge_data))
         header_size = (
             8  # signature + version + hash_version + num_chunks + base_graph_count
         )
-        toc_size = 4 * 12  # 4 entries (3 chunks + terminator) * 12 bytes each
-
-        chunk1_offset = header_size + toc_size  # OID Fanout
-        chunk2_offset = chunk1_offset + len(fanout_data)  # OID Lookup
-        chunk3_offset = chunk2_offset + len(oid_lookup_data)  # Commit Data
-        terminator_offset = chunk3_offset + len(commit_data)
+        toc_size = (len(chunks) + 1) * 12  # one entry per chunk + terminator
 
         # Write header
         f.write(COMMIT_GRAPH_SIGNATURE)
         f.write(struct.pack(">B", COMMIT_GRAPH_VERSION))
         f.write(struct.pack(">B", self.hash_version))
-        f.write(struct.pack(">B", 3))  # 3 chunks
+        f.write(struct.pack(">B", len(chunks)))
         f.write(struct.pack(">B", 0))  # 0 base graphs
 
         # Write table of contents
-        f.write(CHUNK_OID_FANOUT + struct.pack(">Q", chunk1_offset))
-        f.write(CHUNK_OID_LOOKUP + struct.pack(">Q", chunk2_offset))
-        f.write(CHUNK_COMMIT_DATA + struct.pack(">Q", chunk3_offset))
-        f.write(b"\x00\x00\x00\x00" + struct.pack(">Q", terminator_offset))
+        offset = header_size + toc_size
+        for chunk_id, data in chunks:
+            f.write(chunk_id + struct.pack(">Q", offset))
+            offset += len(data)
+        f.write(b"\x00\x00\x00\x00" + struct.pack(">Q", offset))
 
         # Write chunks
-        f.write(fanout_data)
-        f.write(oid_lookup_data)
-        f.write(commit_data)
+        for _chunk_id, data in chunks:
+            f.write(data)
 
     def __len__(self) -> int:
         """Return number of commits in the graph."""
